@@ -18,6 +18,8 @@ import (
 	"testing"
 	"time"
 
+	"github.com/nuts-foundation/nuts-node/storage"
+
 	"verif/lib/ev"
 	"verif/lib/iamflow"
 	"verif/lib/node"
@@ -48,6 +50,10 @@ func TestCheck(t *testing.T) {
 	r.Require(40, 12)
 	r.Assume("in-memory session store (the sandbox has no redis/memcached); at-most-once across several nodes sharing a remote session store is not exercised")
 	w := iamflow.NewWorld(t, iamflow.Options{})
+	// backend fault points underneath the session stores (transparent while no handler injects anything)
+	if !storage.VerifInstrumentSessionDatabase(sessionDatabase(r, w)) {
+		r.Fatalf("the node's session database is not the in-memory one: cannot instrument its backend")
+	}
 
 	classes := []class{
 		{name: "s2s-nonce", make: mkS2S, points: "Get,Put"},
@@ -157,7 +163,24 @@ func TestCheck(t *testing.T) {
 			r.Unspecified("user-redirect-token-honoured-twice")
 		}
 	}
-	afterWindowReplay(r, w)
+	// the after-window replay mostly waits (real time): the store-fault and volume explorations run meanwhile (they touch other keys)
+	var bg sync.WaitGroup
+	bg.Add(1)
+	go func() {
+		defer bg.Done()
+		afterWindowReplay(r, w)
+	}()
+	// the volume exploration has a node of its own (fresh session database, nothing else going on)
+	w2 := iamflow.NewWorld(t, iamflow.Options{})
+	bg.Add(1)
+	go func() {
+		defer bg.Done()
+		volume(r, w2)
+	}()
+	t0 := time.Now()
+	storeFaults(r, w, classes)
+	r.Extra("store_fault_wall_s", time.Since(t0).Seconds())
+	bg.Wait()
 	r.Extra("distinct_interleavings_observed", r.DistinctN("interleavings"))
 }
 
@@ -421,14 +444,19 @@ func mkRequestObject(w *iamflow.World, i int) (*fresh, error) {
 	}}, nil
 }
 
-var dpopState struct {
+type dpopSt struct {
 	once       sync.Once
 	token, kid string
 	jkt        string
 	err        error
 }
 
+// one DPoP-bound access token per world
+var dpopStates sync.Map // *iamflow.World -> *dpopSt
+
 func mkDPoP(w *iamflow.World, i int) (*fresh, error) {
+	st, _ := dpopStates.LoadOrStore(w, &dpopSt{})
+	dpopState := st.(*dpopSt)
 	dpopState.once.Do(func() {
 		resp, err := w.RequestServiceAccessToken("DPoP")
 		if err != nil || resp.Status != 200 {
